@@ -213,6 +213,8 @@ fn check_state(
     {
         let m2 = unsafe { llg_clone_matcher(&*cm) };
         let mut r2 = rm.deep_clone();
+        // a mask computed in this state, immediately before the reset
+        let _ = unsafe { llg_matcher_compute_mask(&mut *m2) };
         let c = unsafe { llg_matcher_reset(&mut *m2) };
         let r = r2.reset();
         if (c == 0) != r.is_ok() {
@@ -220,6 +222,17 @@ fn check_state(
             return Err(v("matcher_reset_code", "ffi-result-differs", json!({"c": c, "rust_ok": r.is_ok()})));
         }
         if c == 0 {
+            // the mask right after the reset (a mask was computed in this state before the reset: it must not survive)
+            let _ = unsafe { llg_matcher_compute_mask(&mut *m2) };
+            let p0 = unsafe { llg_matcher_get_mask(&mut *m2) };
+            let mut r0 = r2.deep_clone();
+            if let (false, Ok(rmk0)) = (p0.is_null(), r0.compute_mask_or_eos()) {
+                let got = unsafe { std::slice::from_raw_parts(p0, bsz / 4) };
+                if got != &rmk0.as_slice()[..bsz / 4] {
+                    unsafe { llg_free_matcher(m2) };
+                    return Err(v("matcher_mask_after_reset", "ffi-result-differs", json!({"c": got, "rust": &rmk0.as_slice()[..bsz / 4]})));
+                }
+            }
             let c2 = unsafe { llg_matcher_consume_tokens(&mut *m2, hist.as_ptr(), hist.len()) };
             let rr = r2.consume_tokens(hist);
             let same_code = (c2 == 0) == rr.is_ok();
@@ -592,6 +605,150 @@ fn text_buffers(ctx: &Ctx, env: &Env, renv: &TokEnv) -> Result<(), Violation> {
     Ok(())
 }
 
+
+/// Blind operation sequences over the C matcher wrapper (which keeps state of its own: the saved mask, the last
+/// error): every sequence of <= `depth` operations from a menu of 8, executed from scratch on a fresh C matcher
+/// and a fresh Rust `Matcher`; return codes, masks, flags compared after every operation.
+fn c_opseq(ctx: &Ctx, env: &Env, g: &(String, String), depth: usize) {
+    let mut init: LlgConstraintInit = unsafe { std::mem::zeroed() };
+    llg_constraint_init_set_defaults(&mut init, env.ctok.ptr);
+    init.log_stderr_level = 0;
+    init.log_buffer_level = 0;
+    let ctype = CString::new(g.0.clone()).unwrap();
+    let cdata = CString::new(g.1.clone()).unwrap();
+    let Ok(top) = TopLevelGrammar::from_tagged_str(&g.0, &g.1) else { return };
+    const N_OPS: u8 = 8;
+    let mut seq: Vec<u8> = vec![];
+    // iterate over all sequences in length-lexicographic order
+    let mut all: Vec<Vec<u8>> = vec![vec![]];
+    let mut layer: Vec<Vec<u8>> = vec![vec![]];
+    for _ in 0..depth {
+        let mut next = vec![];
+        for s in layer.iter() {
+            for o in 0..N_OPS {
+                let mut t = s.clone();
+                t.push(o);
+                next.push(t);
+            }
+        }
+        all.extend(next.iter().cloned());
+        layer = next;
+    }
+    let _ = &mut seq;
+    let bsz = mask_words(env.n_vocab) * 4;
+    for ops in all.iter().filter(|o| o.len() == depth) {
+        crate::watchdog::beat();
+        if ctx.has_violations() {
+            return;
+        }
+        let cm = unsafe { llg_new_matcher(&init, ctype.as_ptr(), cdata.as_ptr()) };
+        let Ok(rp) = env.factory.create_parser(top.clone()) else {
+            unsafe { llg_free_matcher(cm) };
+            return;
+        };
+        let mut rm = Matcher::new(Ok(rp));
+        let mut n_hist = 0usize;
+        let mut bad: Option<serde_json::Value> = None;
+        for (k, op) in ops.iter().enumerate() {
+            // tokens for the consume / validate operations come from a Rust clone (the subject is not disturbed)
+            let allowed: Vec<u32> = rm.deep_clone().compute_mask_or_eos().map(|m| m.iter().collect()).unwrap_or_default();
+            let mismatch = |what: &str, c: serde_json::Value, r: serde_json::Value| Some(json!({"ops": ops, "at": k, "op": op, "what": what, "c": c, "rust": r}));
+            match op {
+                0 | 6 => {
+                    let rmk = rm.compute_mask_or_eos();
+                    if *op == 0 {
+                        let code = unsafe { llg_matcher_compute_mask(&mut *cm) };
+                        if (code == 0) != rmk.is_ok() {
+                            bad = mismatch("compute_mask code", json!(code), json!(rmk.is_ok()));
+                        } else if let Ok(rmk) = &rmk {
+                            let p = unsafe { llg_matcher_get_mask(&mut *cm) };
+                            let n = unsafe { llg_matcher_get_mask_byte_size(&*cm) } / 4;
+                            if p.is_null() || unsafe { std::slice::from_raw_parts(p, n) } != &rmk.as_slice()[..n] {
+                                bad = mismatch("mask", json!(if p.is_null() { vec![] } else { unsafe { std::slice::from_raw_parts(p, n) }.to_vec() }), json!(&rmk.as_slice()[..n]));
+                            }
+                        }
+                    } else {
+                        let n = unsafe { llg_matcher_get_mask_byte_size(&*cm) } / 4;
+                        let mut buf = vec![0xC0FFEE11u32; n + 2];
+                        let code = unsafe { llg_matcher_compute_mask_into(&mut *cm, buf.as_mut_ptr().add(1), n * 4) };
+                        if (code == 0) != rmk.is_ok() {
+                            bad = mismatch("compute_mask_into code", json!(code), json!(rmk.is_ok()));
+                        } else if let Ok(rmk) = &rmk {
+                            if buf[1..1 + n] != rmk.as_slice()[..n] || buf[0] != 0xC0FFEE11 || buf[n + 1] != 0xC0FFEE11 {
+                                bad = mismatch("mask_into", json!(buf), json!(&rmk.as_slice()[..n]));
+                            }
+                        }
+                    }
+                    let _ = bsz;
+                }
+                1 | 2 => {
+                    let Some(t) = (if *op == 1 { allowed.first() } else { allowed.last() }) else { continue };
+                    let code = unsafe { llg_matcher_consume_token(&mut *cm, *t) };
+                    let r = rm.consume_token(*t);
+                    if (code == 0) != r.is_ok() {
+                        bad = mismatch("consume_token code", json!(code), json!(r.is_ok()));
+                    }
+                    if r.is_ok() {
+                        n_hist += 1;
+                    }
+                }
+                3 => {
+                    if n_hist == 0 {
+                        continue;
+                    }
+                    let code = unsafe { llg_matcher_rollback(&mut *cm, 1) };
+                    let r = rm.rollback(1);
+                    if (code == 0) != r.is_ok() {
+                        bad = mismatch("rollback code", json!(code), json!(r.is_ok()));
+                    }
+                    if r.is_ok() {
+                        n_hist -= 1;
+                    }
+                }
+                4 => {
+                    let code = unsafe { llg_matcher_reset(&mut *cm) };
+                    let r = rm.reset();
+                    if (code == 0) != r.is_ok() {
+                        bad = mismatch("reset code", json!(code), json!(r.is_ok()));
+                    }
+                    if r.is_ok() {
+                        n_hist = 0;
+                    }
+                }
+                5 => {
+                    let toks: Vec<u32> = allowed.iter().take(2).copied().collect();
+                    let c = unsafe { llg_matcher_validate_tokens(&mut *cm, toks.as_ptr(), toks.len()) };
+                    let r = rm.validate_tokens(&toks).map(|x| x as i32).unwrap_or(-1);
+                    if c != r {
+                        bad = mismatch("validate_tokens", json!(c), json!(r));
+                    }
+                }
+                _ => {
+                    let (ca, cs) = unsafe { (llg_matcher_is_accepting(&mut *cm), llg_matcher_is_stopped(&*cm)) };
+                    let (ra, rs) = (rm.is_accepting().unwrap_or(false), rm.is_stopped());
+                    if ca != ra || cs != rs {
+                        bad = mismatch("accepting/stopped", json!([ca, cs]), json!([ra, rs]));
+                    }
+                }
+            }
+            if bad.is_none() && unsafe { llg_matcher_is_error(&*cm) } != rm.is_error() {
+                bad = mismatch("is_error", json!(unsafe { llg_matcher_is_error(&*cm) }), json!(rm.is_error()));
+            }
+            if bad.is_some() {
+                break;
+            }
+        }
+        unsafe { llg_free_matcher(cm) };
+        ctx.count("c_wrapper_op_sequences", 1);
+        ctx.states.fetch_add(1, Ordering::Relaxed);
+        ctx.transitions.fetch_add(ops.len() as u64, Ordering::Relaxed);
+        if let Some(what) = bad {
+            ctx.violation(viol("c_matcher_op_sequence", "ffi-result-differs", g, env.n_vocab, &[], what));
+            return;
+        }
+    }
+}
+
 pub fn run(ctx: &Ctx) -> Coverage {
     ARMED.store(true, Ordering::SeqCst);
     let grammars: Vec<(String, String)> = vec![
@@ -627,6 +784,9 @@ pub fn run(ctx: &Ctx) -> Coverage {
         }
         for g in grammars.iter() {
             explore_grammar(ctx, &env, g, depth);
+            if n == 33 || (n == 64 && !ctx.quick()) {
+                c_opseq(ctx, &env, g, ctx.tier.pick(4, 5));
+            }
         }
         let _ = &env.ctok.words;
         unsafe { llg_free_tokenizer(env.ctok.ptr) };
@@ -638,6 +798,6 @@ pub fn run(ctx: &Ctx) -> Coverage {
         ctx.machinery_error("vacuous run: llg_par_compute_mask never called");
     }
     Coverage::StateGraph {
-        rule: format!("extern \"C\" functions called from Rust in lock-step with the Rust Constraint/Matcher over all histories to depth {depth} (<= 6 successors per state) on 5 grammars and vocabulary sizes around multiples of 32; masks, commit results, validation counts, rollback, reset + consume_tokens(history), ff tokens compared; llg_matcher_compute_mask_into with exact and short lengths between canaries; llg_par_compute_mask with every destination length 0,4,..,2*mask+8, with and without callback, destination between canaries, llg_tokenize_bytes(_marker), llg_decode_tokens (all flag combinations), llg_stringify_tokens and the error string of a refused llg_new_tokenizer with every output length from 0 to the needed size + 2 between canaries (count, prefix, NUL, untouched tail); all heap blocks followed by a poisoned red zone (over-read shows as poison words, over-write as a broken zone)"),
+        rule: format!("extern \"C\" functions called from Rust in lock-step with the Rust Constraint/Matcher over all histories to depth {depth} (<= 6 successors per state) on 5 grammars and vocabulary sizes around multiples of 32; every sequence of 4 (thorough: 5) operations out of 8 on the C matcher wrapper executed blind on fresh objects (vocabulary size 33; thorough also 64); masks, commit results, validation counts, rollback, reset + consume_tokens(history), ff tokens compared; llg_matcher_compute_mask_into with exact and short lengths between canaries; llg_par_compute_mask with every destination length 0,4,..,2*mask+8, with and without callback, destination between canaries, llg_tokenize_bytes(_marker), llg_decode_tokens (all flag combinations), llg_stringify_tokens and the error string of a refused llg_new_tokenizer with every output length from 0 to the needed size + 2 between canaries (count, prefix, NUL, untouched tail); all heap blocks followed by a poisoned red zone (over-read shows as poison words, over-write as a broken zone)"),
     }
 }
